@@ -272,7 +272,9 @@ def history(ctx, rng, lib_sets):
                 steps.append(f"KSet {term}")
                 if not pk_ or pk_[-1][1][:1] != b"\xff":
                     return dict(problem="a command whose second statement must be refused was not answered with ERR", sql=sql), steps, views
-                if sess.variables.get("character_set_client") == eff.get("client", c.client):
+                # (the ERR is the second statement's only if the first one was accepted: a switch that is itself refused - e.g.
+                #  SET CHARACTER SET while @@character_set_database names no character set - changes nothing)
+                if b"no_such_variable_at_all" in pk_[-1][1] and sess.variables.get("character_set_client") == eff.get("client", c.client):
                     c.client = eff.get("client", c.client)
                     c.results = eff.get("results", c.results)
             elif r < 0.3:
